@@ -3,113 +3,169 @@ import GoSQLXModel.Model.Val
 # Walk / Inspect over `Val`, driven by a Children() table
 
 Mirrors `pkg/sql/ast/visitor.go`: `Walk(v, n)` visits `n`, then walks every element of
-`n.Children()`.  `Children()` of a node of type `ty` returns the node-valued content of the
-fields listed for `ty` in the table (first-level granularity: a by-value helper struct that is
-mentioned is traversed completely).
+`n.Children()`.  `Children()` of a node of type `ty` returns the node-valued content of the field
+*paths* listed for `ty` in the table: a plain name (`Where`) allows the whole field; a dotted path
+(`Action.Where`) allows that field of a by-value helper struct (`allowed` carries the remaining
+suffixes while the walk is inside the helper struct).
 -/
 namespace GoSQLXModel
 
 abbrev ChildTable := String → List String
 
+/-- the suffixes of the allowed paths that start with `n.` -/
+def subPaths (l : List String) (n : String) : List String :=
+  l.filterMap fun p => if (n ++ ".").isPrefixOf p then some ((p.drop (n.length + 1)).toString) else none
+
+/-- what is allowed below field `n`: `none` = everything, `some []` = nothing -/
+def allowBelow (allowed : Option (List String)) (n : String) : Option (List String) :=
+  match allowed with
+  | none => none
+  | some l => if l.contains n then none else some (subPaths l n)
+
 mutual
-def Val.walk (t : ChildTable) : Val → List String
-  | .node ty fs => ty :: fs.walk t (some (t ty))
-  | .struct fs => fs.walk t none
-  | .list xs => xs.walk t
-  | _ => []
-def Vals.walk (t : ChildTable) : Vals → List String
-  | .nil => [] | .cons v vs => v.walk t ++ vs.walk t
-/-- `allowed = none` : every field is followed (helper struct); `some l` : only fields in `l` -/
+def Val.walk (t : ChildTable) : Option (List String) → Val → List String
+  | _, .node ty fs => ty :: fs.walk t (some (t ty))
+  | a, .struct fs => fs.walk t a
+  | a, .list xs => xs.walk t a
+  | _, _ => []
+def Vals.walk (t : ChildTable) : Option (List String) → Vals → List String
+  | _, .nil => [] | a, .cons v vs => v.walk t a ++ vs.walk t a
 def Fields.walk (t : ChildTable) : Fields → Option (List String) → List String
   | .nil, _ => []
   | .cons n v fs, allowed =>
-    (match allowed with
-     | none => v.walk t
-     | some l => if l.contains n then v.walk t else []) ++ fs.walk t allowed
+    (match allowBelow allowed n with
+     | some [] => []
+     | a => v.walk t a) ++ fs.walk t allowed
 end
 
--- the table mentions every field of every node of `v` that holds any node
+/-- a node value is only followed when its whole field is allowed -/
+def wholeAllowed : Option (List String) → Bool
+  | none => true
+  | some _ => false
+
+-- the table mentions every field path of every node of `v` that holds any node
 mutual
-def Val.covered (t : ChildTable) : Val → Bool
-  | .node ty fs => fs.covered t (some (t ty))
-  | .struct fs => fs.covered t none
-  | .list xs => xs.covered t
-  | _ => true
-def Vals.covered (t : ChildTable) : Vals → Bool
-  | .nil => true | .cons v vs => v.covered t && vs.covered t
+def Val.covered (t : ChildTable) : Option (List String) → Val → Bool
+  | a, .node ty fs => wholeAllowed a && fs.covered t (some (t ty))
+  | a, .struct fs => fs.covered t a
+  | a, .list xs => xs.covered t a
+  | _, _ => true
+def Vals.covered (t : ChildTable) : Option (List String) → Vals → Bool
+  | _, .nil => true | a, .cons v vs => v.covered t a && vs.covered t a
 def Fields.covered (t : ChildTable) : Fields → Option (List String) → Bool
   | .nil, _ => true
   | .cons n v fs, allowed =>
-    ((match allowed with | none => true | some l => l.contains n) || v.nodes.isEmpty)
-      && v.covered t && fs.covered t allowed
+    (v.nodes.isEmpty ||
+      (match allowBelow allowed n with
+       | some [] => false
+       | a => v.covered t a)) && fs.covered t allowed
 end
 
+-- a node met while only part of a helper struct is allowed is not returned by Children(); to keep `walk`
+--     total and simple such a node is still *entered* by `walk` above, so `covered` demands `wholeAllowed` there
 mutual
-theorem Val.walk_complete (t : ChildTable) : ∀ v : Val, v.covered t = true → v.walk t = v.nodes
-  | .node ty fs, h => by
+theorem Val.walk_complete (t : ChildTable) : ∀ (a : Option (List String)) (v : Val), v.covered t a = true → v.walk t a = v.nodes
+  | a, .node ty fs, h => by
+      simp only [Val.covered, Bool.and_eq_true] at h
       simp only [Val.walk, Val.nodes]; congr 1
-      exact Fields.walk_complete t fs _ (by simpa [Val.covered] using h)
-  | .struct fs, h => by
+      exact Fields.walk_complete t fs _ h.2
+  | a, .struct fs, h => by
       simp only [Val.walk, Val.nodes]
       exact Fields.walk_complete t fs _ (by simpa [Val.covered] using h)
-  | .list xs, h => by
-      simp only [Val.walk, Val.nodes]; exact Vals.walk_complete t xs (by simpa [Val.covered] using h)
-  | .str _, _ => rfl | .int _, _ => rfl | .bool _, _ => rfl | .nil, _ => rfl
-theorem Vals.walk_complete (t : ChildTable) : ∀ vs : Vals, vs.covered t = true → vs.walk t = vs.nodes
-  | .nil, _ => rfl
-  | .cons v vs, h => by
+  | a, .list xs, h => by
+      simp only [Val.walk, Val.nodes]; exact Vals.walk_complete t a xs (by simpa [Val.covered] using h)
+  | _, .str _, _ => rfl | _, .int _, _ => rfl | _, .bool _, _ => rfl | _, .nil, _ => rfl
+theorem Vals.walk_complete (t : ChildTable) : ∀ (a : Option (List String)) (vs : Vals), vs.covered t a = true → vs.walk t a = vs.nodes
+  | _, .nil, _ => rfl
+  | a, .cons v vs, h => by
       simp only [Vals.covered, Bool.and_eq_true] at h
-      simp only [Vals.walk, Vals.nodes, Val.walk_complete t v h.1, Vals.walk_complete t vs h.2]
+      simp only [Vals.walk, Vals.nodes, Val.walk_complete t a v h.1, Vals.walk_complete t a vs h.2]
 theorem Fields.walk_complete (t : ChildTable) :
     ∀ (fs : Fields) (a : Option (List String)), fs.covered t a = true → fs.walk t a = fs.nodes
   | .nil, _, _ => rfl
   | .cons n v fs, a, h => by
       simp only [Fields.covered, Bool.and_eq_true, Bool.or_eq_true] at h
-      obtain ⟨⟨h1, h2⟩, h3⟩ := h
+      obtain ⟨h1, h3⟩ := h
       simp only [Fields.walk, Fields.nodes, Fields.walk_complete t fs a h3]
       congr 1
-      cases a with
-      | none => exact Val.walk_complete t v h2
-      | some l =>
+      cases hb : allowBelow a n with
+      | none =>
+        rw [hb] at h1
         simp only
         cases h1 with
-        | inl hc => simp only at hc; rw [if_pos hc, Val.walk_complete t v h2]
-        | inr he =>
+        | inl he =>
           have hn : v.nodes = [] := by simpa using he
-          by_cases hc : l.contains n = true
-          · rw [if_pos hc, Val.walk_complete t v h2]
-          · rw [if_neg hc, hn]
+          rw [hn]
+          exact Val.walk_nil_of_nodes_nil t none v hn
+        | inr hc => exact Val.walk_complete t none v hc
+      | some l =>
+        rw [hb] at h1
+        cases l with
+        | nil =>
+          simp only
+          cases h1 with
+          | inl he => have hn : v.nodes = [] := by simpa using he
+                      rw [hn]
+          | inr hc => simp at hc
+        | cons p ps =>
+          simp only
+          cases h1 with
+          | inl he =>
+            have hn : v.nodes = [] := by simpa using he
+            rw [hn]
+            exact Val.walk_nil_of_nodes_nil t _ v hn
+          | inr hc => exact Val.walk_complete t _ v hc
+theorem Val.walk_nil_of_nodes_nil (t : ChildTable) : ∀ (a : Option (List String)) (v : Val), v.nodes = [] → v.walk t a = []
+  | _, .node ty fs, h => by simp [Val.nodes] at h
+  | a, .struct fs, h => by simp only [Val.nodes] at h; simp only [Val.walk]; exact Fields.walk_nil_of_nodes_nil t fs a h
+  | a, .list xs, h => by simp only [Val.nodes] at h; simp only [Val.walk]; exact Vals.walk_nil_of_nodes_nil t a xs h
+  | _, .str _, _ => rfl | _, .int _, _ => rfl | _, .bool _, _ => rfl | _, .nil, _ => rfl
+theorem Vals.walk_nil_of_nodes_nil (t : ChildTable) : ∀ (a : Option (List String)) (vs : Vals), vs.nodes = [] → vs.walk t a = []
+  | _, .nil, _ => rfl
+  | a, .cons v vs, h => by
+      simp only [Vals.nodes, List.append_eq_nil_iff] at h
+      simp only [Vals.walk, Val.walk_nil_of_nodes_nil t a v h.1, Vals.walk_nil_of_nodes_nil t a vs h.2, List.append_nil]
+theorem Fields.walk_nil_of_nodes_nil (t : ChildTable) : ∀ (fs : Fields) (a : Option (List String)), fs.nodes = [] → fs.walk t a = []
+  | .nil, _, _ => rfl
+  | .cons n v fs, a, h => by
+      simp only [Fields.nodes, List.append_eq_nil_iff] at h
+      simp only [Fields.walk, Fields.walk_nil_of_nodes_nil t fs a h.2, List.append_nil]
+      cases hb : allowBelow a n with
+      | none => exact Val.walk_nil_of_nodes_nil t none v h.1
+      | some l =>
+        cases l with
+        | nil => rfl
+        | cons p ps => exact Val.walk_nil_of_nodes_nil t _ v h.1
 end
 
 -- soundness: nothing is visited that is not part of the tree (walk is a sublist of nodes)
 mutual
-theorem Val.walk_sound (t : ChildTable) : ∀ v : Val, (v.walk t).Sublist v.nodes
-  | .node ty fs => by
-      simp only [Val.walk, Val.nodes]; exact List.Sublist.cons₂ _ (Fields.walk_sound t fs _)
-  | .struct fs => by simp only [Val.walk, Val.nodes]; exact Fields.walk_sound t fs _
-  | .list xs => by simp only [Val.walk, Val.nodes]; exact Vals.walk_sound t xs
-  | .str _ => by simp [Val.walk, Val.nodes]
-  | .int _ => by simp [Val.walk, Val.nodes]
-  | .bool _ => by simp [Val.walk, Val.nodes]
-  | .nil => by simp [Val.walk, Val.nodes]
-theorem Vals.walk_sound (t : ChildTable) : ∀ vs : Vals, (vs.walk t).Sublist vs.nodes
-  | .nil => by simp [Vals.walk, Vals.nodes]
-  | .cons v vs => by
+theorem Val.walk_sound (t : ChildTable) : ∀ (a : Option (List String)) (v : Val), (v.walk t a).Sublist v.nodes
+  | _, .node ty fs => by
+      simp only [Val.walk, Val.nodes]; exact List.Sublist.cons_cons _ (Fields.walk_sound t fs _)
+  | a, .struct fs => by simp only [Val.walk, Val.nodes]; exact Fields.walk_sound t fs _
+  | a, .list xs => by simp only [Val.walk, Val.nodes]; exact Vals.walk_sound t a xs
+  | _, .str _ => by simp [Val.walk, Val.nodes]
+  | _, .int _ => by simp [Val.walk, Val.nodes]
+  | _, .bool _ => by simp [Val.walk, Val.nodes]
+  | _, .nil => by simp [Val.walk, Val.nodes]
+theorem Vals.walk_sound (t : ChildTable) : ∀ (a : Option (List String)) (vs : Vals), (vs.walk t a).Sublist vs.nodes
+  | _, .nil => by simp [Vals.walk, Vals.nodes]
+  | a, .cons v vs => by
       simp only [Vals.walk, Vals.nodes]
-      exact List.Sublist.append (Val.walk_sound t v) (Vals.walk_sound t vs)
+      exact List.Sublist.append (Val.walk_sound t a v) (Vals.walk_sound t a vs)
 theorem Fields.walk_sound (t : ChildTable) :
     ∀ (fs : Fields) (a : Option (List String)), (fs.walk t a).Sublist fs.nodes
   | .nil, _ => by simp [Fields.walk, Fields.nodes]
   | .cons n v fs, a => by
       simp only [Fields.walk, Fields.nodes]
       apply List.Sublist.append _ (Fields.walk_sound t fs a)
-      cases a with
-      | none => exact Val.walk_sound t v
+      cases hb : allowBelow a n with
+      | none => exact Val.walk_sound t none v
       | some l =>
-        simp only
-        split
-        · exact Val.walk_sound t v
-        · exact List.nil_sublist _
+        cases l with
+        | nil => exact List.nil_sublist _
+        | cons p ps => exact Val.walk_sound t _ v
 end
 
 end GoSQLXModel
